@@ -52,7 +52,7 @@ func smtpRule(g *vh.Gen, key string, rs *ruleSet) {
 		switch g.Intn(3) {
 		case 0:
 			code := g.Pick2(550, 553, 421, 451, 5, 99, 999)
-			msg := g.Pick("no way", "policy says no", "x")
+			msg := g.Pick("no way", "policy says no", "x", "sender is 100% blocked", "50%", "%d %s %v%%")
 			body, label = fmt.Sprintf("return smtp.deny(%d, %s)", code, q(msg)), fmt.Sprintf("D%d:%s", code, vh.HS(msg))
 		case 1:
 			body, label = "return smtp.deny()", "D550:"+vh.HS("Mail denied by policy")
